@@ -10,7 +10,10 @@ import (
 	"fmt"
 	"math"
 	"os"
+	"runtime"
 	"strings"
+	"sync"
+	"sync/atomic"
 
 	"github.com/ctessum/geom"
 
@@ -292,6 +295,25 @@ func gen(seed uint64, tier string) {
 			fmt.Fprintf(out, "hop %s%s\n", o, sb.String())
 		}
 	}
+	// concurrency: the operations are pure functions of their operands, so the answer must not depend
+	// on what other goroutines compute at the same time. `cc` lines: the case is computed by several
+	// goroutines (each on its own deep copy of the operands) while others run the four operations on
+	// unrelated far-away operands; every answer must be the sequential one, which the oracle judges.
+	ncc := npairs / 5
+	if ncc > 600 {
+		ncc = 600
+	}
+	for h := 0; h < ncc; h++ {
+		ka, kb := kinds[h%3], kinds[(h/3)%3]
+		a, b := genPair(r, ka, kb, classCycle[(h/9)%len(classCycle)])
+		closed := r.Intn(5) != 0
+		fmt.Fprintf(out, "cc %s %s | %s\n", opNames[h%4], vproto.GeomToks(a.ToGeom(1, closed)), vproto.GeomToks(b.ToGeom(1, closed)))
+	}
+	for _, c := range corpus()[:3] {
+		for _, o := range opNames {
+			fmt.Fprintf(out, "cc %s %s | %s\n", o, vproto.GeomToks(c[0]), vproto.GeomToks(c[1]))
+		}
+	}
 }
 
 func scaleFor(r *vproto.Rng) float64 {
@@ -379,7 +401,7 @@ func impl() {
 			p := vproto.NewParser(line)
 			kind := p.Next()
 			op := ""
-			if kind == "op" || kind == "opx" || kind == "hop" {
+			if kind == "op" || kind == "opx" || kind == "hop" || kind == "cc" {
 				op = p.Next()
 			}
 			if kind == "hop" {
@@ -432,6 +454,10 @@ func impl() {
 				panic("harness: expected |")
 			}
 			b, _ := p.Geom().(geom.Polygonal)
+			if kind == "cc" {
+				res = concurrent(a, op, b)
+				return
+			}
 			a, b = shapes.Flat(a), shapes.Flat(b)
 			before := toks2(a, b)
 			if kind == "op" || kind == "opx" {
@@ -455,6 +481,87 @@ func impl() {
 		}
 		fmt.Fprintf(out, "%s => %s\n", line, res)
 	})
+}
+
+// concurrent computes a.op(b) once on its own (the reference answer), then ccVictims goroutines
+// compute it ccRounds times each on their own deep copies of the operands while ccNoise goroutines
+// run all four operations on unrelated operands far away. The first answer that is not bit for bit
+// the reference answer is returned (for the oracle to judge), otherwise the reference answer.
+const (
+	ccVictims = 8
+	ccNoise   = 8
+	ccRounds  = 80
+)
+
+func concurrent(a geom.Polygonal, op string, b geom.Polygonal) string {
+	if runtime.GOMAXPROCS(0) < 4 {
+		runtime.GOMAXPROCS(4)
+	}
+	ref := "ok " + vproto.GeomToks(apply(shapes.Flat(a), op, shapes.Flat(b)))
+	var stop int32
+	var mu sync.Mutex
+	bad := ""
+	report := func(s string) {
+		mu.Lock()
+		if bad == "" {
+			bad = s
+		}
+		mu.Unlock()
+		atomic.StoreInt32(&stop, 1)
+	}
+	var noise, victims sync.WaitGroup
+	for i := 0; i < ccNoise; i++ {
+		noise.Add(1)
+		go func(i int) {
+			defer noise.Done()
+			defer func() {
+				if e := recover(); e != nil {
+					report(fmt.Sprintf("panic in a concurrent call on unrelated operands: %v", e))
+				}
+			}()
+			x := 1e6 + 10*float64(i)
+			var na, nb geom.Polygonal = sq(x, 1e6, x+4, 1e6+4), sq(x+2, 1e6+1, x+5, 1e6+3)
+			if i%2 == 1 {
+				nb = geom.MultiPolygon{sq(x+2, 1e6+1, x+5, 1e6+3)}
+			}
+			for atomic.LoadInt32(&stop) == 0 {
+				for _, o := range opNames {
+					apply(na, o, nb)
+				}
+			}
+		}(i)
+	}
+	for i := 0; i < ccVictims; i++ {
+		victims.Add(1)
+		go func() {
+			defer victims.Done()
+			defer func() {
+				if e := recover(); e != nil {
+					report(fmt.Sprintf("panic %v", e))
+				}
+			}()
+			va, vb := shapes.Flat(a), shapes.Flat(b)
+			before := toks2(va, vb)
+			for k := 0; k < ccRounds && atomic.LoadInt32(&stop) == 0; k++ {
+				got := "ok " + vproto.GeomToks(apply(va, op, vb))
+				if toks2(va, vb) != before {
+					report("mutated")
+					return
+				}
+				if got != ref {
+					report(got)
+					return
+				}
+			}
+		}()
+	}
+	victims.Wait()
+	atomic.StoreInt32(&stop, 1)
+	noise.Wait()
+	if bad != "" {
+		return bad
+	}
+	return ref
 }
 
 // freeze returns a deep copy of a result (so that a result which is one of the operand objects
